@@ -36,8 +36,10 @@ PLAN = {
         ("CasesValues.cfg", "case", None),
         ("NewCases.cfg", "case", None),
         ("InputFileQuick.cfg", "graph", None),
+        ("InputFilePrimed.cfg", "graph", None),
         ("OneOfQuick.cfg", "graph", None),
         ("ParamQuick.cfg", "graph", None),
+        ("FormQuick.cfg", "graph", None),
         ("UIJsonQuick.cfg", "graph", None),
     ],
     "thorough": [
@@ -47,8 +49,11 @@ PLAN = {
         ("NewCases.cfg", "case", None),
         ("InputFileThorough.cfg", "graph", 40000),
         ("InputFileDeep.cfg", "graph", None),
+        ("InputFilePrimed.cfg", "graph", None),
+        ("InputFilePrimedDeep.cfg", "graph", None),
         ("OneOfDeep.cfg", "graph", None),
         ("ParamThorough.cfg", "graph", None),
+        ("FormDeep.cfg", "graph", None),
         ("UIJsonDeep.cfg", "graph", None),
     ],
 }
@@ -62,11 +67,11 @@ NEGATIVE = [
     ("NegStoreBeforeValidate.cfg", "RejectedLeavesUnchangedStrict"),
 ]
 TARGET_OF = {"Cases": "classic", "InputFile": "classic", "OneOf": "oneof", "NewCases": "param",
-             "Param": "param", "UIJson": "uijson"}
+             "Param": "param", "Form": "form", "UIJson": "uijson"}
 
 
 def _target(cfgfile):
-    for prefix in ("NewCases", "Cases", "InputFile", "OneOf", "Param", "UIJson"):
+    for prefix in ("NewCases", "Cases", "InputFile", "OneOf", "Param", "Form", "UIJson"):
         if cfgfile.startswith(prefix):
             return TARGET_OF[prefix]
     raise MachineryError(f"no target for {cfgfile}")
@@ -224,6 +229,10 @@ def _replay(item):
     return viol
 
 
+def _primed(item):
+    return any(lab[0] == "Prime" for lab in item["labels"])
+
+
 # ---------------------------------------------------------------- run
 def _run_tlc(cfgfile, **kw):
     """TLC with one retry: a JVM that dies on a loaded machine is a machinery problem, not a verdict."""
@@ -288,7 +297,14 @@ def run(tier, seed):
     # UIJson items open a workspace file for every validate(): spread them between the cheap ones
     rng = random.Random(seed)
     rng.shuffle(all_items)
-    out = pmap(_replay, all_items)
+    # two generations of worker processes: calls that the specification judges after "Prime" (another ui.json
+    # loaded in the same process) must not share a process with the calls judged in a fresh one
+    fresh = [it for it in all_items if not _primed(it)]
+    primed = [it for it in all_items if _primed(it)]
+    if not primed:
+        raise MachineryError("no primed call sequence was exported")
+    out = pmap(_replay, fresh) + pmap(_replay, primed)
+    all_items = fresh + primed
     replay_wall = time.time() - t1
     viol = [v for r in out for v in (r or [])]
     # simplest example of every failure mode first (./check prints the first one per signature)
@@ -301,7 +317,7 @@ def run(tier, seed):
     by_target = {}
     for it in all_items:
         by_target[it["target"]] = by_target.get(it["target"], 0) + 1
-    for t in ("classic", "oneof", "param", "uijson"):
+    for t in ("classic", "oneof", "param", "form", "uijson"):
         if not by_target.get(t):
             raise MachineryError(f"no replay item for target {t}")
     # vacuity: the ideal machine must both accept and reject on every target, None included on the classic path
@@ -311,7 +327,7 @@ def run(tier, seed):
             seen.add((it["target"], out))
             if it["target"] == "classic" and arg == "None":
                 seen.add(("classic-None", out))
-    for t in ("classic", "oneof", "param", "uijson", "classic-None"):
+    for t in ("classic", "oneof", "param", "form", "uijson", "classic-None"):
         for out in ("ok", "rejected"):
             if (t, out) not in seen:
                 raise MachineryError(f"vacuous coverage: no ideal outcome {out!r} for {t}")
@@ -319,7 +335,7 @@ def run(tier, seed):
     if len(multi) < 50:
         raise MachineryError("fewer than 50 call sequences of length >= 3 were replayed")
     samples = []
-    for t in ("classic", "oneof", "param", "uijson"):
+    for t in ("classic", "oneof", "param", "form", "uijson"):
         cand = [it for it in multi if it["target"] == t] or [it for it in all_items if it["target"] == t]
         it = cand[len(cand) // 2]
         samples.append({"cfg_file": it["cfgfile"], "form": it["cfg"], "calls": it["labels"],
